@@ -133,6 +133,7 @@ class Node(object):
         self.dead = True
         self.sim.log("CRASH", self.name, why)
         self.sim.count("crash")
+        self.sim.broker.mark_prefetched(self.name)
 
     def teardown(self):
         """Finish a crash: drop everything volatile, let the broker requeue."""
